@@ -78,3 +78,19 @@ func Cert(signer crypto.Signer, serial []byte) *x509.Certificate {
 
 // CertRawLen sets the length of the opaque certificate bytes under the executor (default 5).
 func CertRawLen(n int) {}
+
+// CertSameID returns a certificate with the same issuer name and serial number as like, but for
+// the key of signer ("another key under the same issuer and serial").
+func CertSameID(signer crypto.Signer, like *x509.Certificate) *x509.Certificate {
+	s := signer.(*SymSigner)
+	tmpl := &x509.Certificate{SerialNumber: like.SerialNumber, Subject: like.Subject, NotBefore: like.NotBefore, NotAfter: like.NotAfter}
+	der, err := x509.CreateCertificate(rand.Reader, tmpl, tmpl, &s.key.PublicKey, s.key)
+	if err != nil {
+		panic(err)
+	}
+	c, err := x509.ParseCertificate(der)
+	if err != nil {
+		panic(err)
+	}
+	return c
+}
